@@ -831,6 +831,43 @@ theorem trans_C13_Pause_idempotent_v2 (ph tok : Nat) (h : tok ≤ 1) :
   · simp only [h1, if_true]; exact trans_C13_Pause_v2 2 1 (by omega)
   · simp only [h1, if_false]; rw [trans_C13_Pause_v2 ph tok h]; simp [h1]
 
+/-! ### Batcher lifecycle: the head of `Start`, v1's `Stop` -/
+
+/-- `Start` goes on to create its tickers and its loop only from the uninitialised phase (v1: and with a buffer); any
+later call is refused with the improper-order error and changes nothing (C16: starts exactly once); on the way the
+defaults are applied -/
+theorem trans_C16_startHead_v2 (r : T_v2_batcher_cfg) (phase : Nat) :
+    v2_startHead r phase = (if phase = 0 then (v2_applyDefaults r, "") else (r, "ImproperOrderError")) := by
+  by_cases h : phase = 0
+  · simp [v2_startHead, h]
+  · have h' : ¬ (phase : Int) = 0 := by omega
+    simp [v2_startHead, h, h']
+
+theorem trans_C16_startHead_v1 (r : T_v1_Batcher_cfg) (phase : Nat) (noBuffer : Bool) :
+    v1_startHead r phase noBuffer =
+      (if phase ≠ 0 then (r, "BatcherImproperOrderError") else if noBuffer then (r, "BufferNotAllocated")
+       else (v1_applyDefaults r, "")) := by
+  by_cases h : phase = 0
+  · cases noBuffer <;> simp [v1_startHead, h]
+  · have h' : ¬ (phase : Int) = 0 := by omega
+    simp [v1_startHead, h, h']
+
+/-- v1 `Stop()`: on a stopped Batcher it does nothing at all - in particular it does not close the stop channel a
+second time (a close of a closed channel panics); otherwise it closes it once, marks the Batcher stopped and waits for
+the loop -/
+theorem trans_C16_C20_Stop_v1 (phase : Nat) (hasStop : Bool) :
+    v1_Stop ⟨phase⟩ hasStop = (if phase = 3 then (⟨3⟩, false, false) else (⟨3⟩, hasStop, true)) := by
+  by_cases h : phase = 3
+  · simp [v1_Stop, h]
+  · have h' : ¬ (phase : Int) = 3 := by omega
+    cases hasStop <;> simp [v1_Stop, h, h']
+
+/-- Stop after Stop changes nothing and closes nothing -/
+theorem trans_C16_C20_Stop_twice_v1 (phase : Nat) (hasStop : Bool) :
+    v1_Stop (v1_Stop ⟨phase⟩ hasStop).1 hasStop = (⟨3⟩, false, false) := by
+  rw [trans_C16_C20_Stop_v1]
+  by_cases h : phase = 3 <;> simp [h] <;> exact trans_C16_C20_Stop_v1 3 hasStop
+
 /-! ### non-vacuity: the translated functions on concrete values (also a readable trace of what they compute) -/
 
 example : v2_incTarget ⟨7⟩ 5 = ⟨12⟩ ∧ v2_incTarget ⟨7⟩ (-5) = ⟨2⟩ ∧ v2_incTarget ⟨7⟩ (-9) = ⟨0⟩ ∧ v2_incTarget ⟨7⟩ 0 = ⟨7⟩ := by decide
